@@ -69,6 +69,7 @@ def obsRecords : List Nat → List Att → List String
       s!"{a.idx}:{a.host}:{showRes a.res}:{(prev.filter (· == a.host)).length + 1}" :: obsRecords (a.host :: prev) as
 
 structure Scn where
+  kx : Option Nat := none       -- the statement's context ends in Mark after the attempt of this request
   req : Req
   pol : Option Policy
   ctxErr : String
@@ -126,11 +127,11 @@ def showRun (s : Scn) (r : Run) (k0 : Nat) (prevHosts : List Nat) (anySent : Boo
   " final=" ++ showFinal s.ctxErr (k0 + r.sent.length - 1) r.out.final
 
 def runScn (s : Scn) (c0 : Nat) (pre : Bool) (reps : Nat) : String :=
-  let r1 := execute s.req s.pol s.outcome s.us 64 s.ids 0 0 c0 pre
+  let r1 := executeX s.req s.pol s.outcome s.us 64 s.ids 0 0 c0 pre s.kx
   let s1 := showRun s r1 0 [] false
   if reps < 2 then s1
   else
-    let r2 := execute s.req s.pol s.outcome s.us 64 s.ids r1.sent.length r1.out.cnt r1.out.cons r1.ctxDone
+    let r2 := executeX s.req s.pol s.outcome s.us 64 s.ids r1.sent.length r1.out.cnt r1.out.cons r1.ctxDone s.kx
     s1 ++ " | " ++ showRun s r2 r1.sent.length (r1.out.attempts.map (·.host)).reverse (!r1.sent.isEmpty)
 
 def decoyPolicy : Policy := simplePolicy 7
@@ -167,7 +168,13 @@ def exOpCore (kind ctor pol polAt obs ctx cons reps hosts outs env : String) : S
     let stmtObs : Option (Option Unit) := if obs == "q" || obs == "o" then some (some ()) else none
     let w0 := applyActs ((ev.filter (·.init)).filterMap (envAct hostSpecs)) hs
     let script : Nat → List (EnvAct × Nat) := fun j => (ev.filter fun t => !t.init && t.after == j).filterMap (envAct hostSpecs)
+    -- `<k>x<any>`: the statement's context (if it has one that can end) ends in Mark after the attempt of request k
+    let xs := (ev.filter fun t => !t.init && t.act == 'x').map (·.after)
+    let kx : Option Nat := if ctx == "-" then none else xs.foldl (fun (m : Option Nat) v => match m with
+      | none => some v
+      | some w => some (min v w)) none
     let scn : Scn := {
+      kx := kx,
       req := ⟨k, (effective fromSession sessObs stmtObs).isSome⟩,
       pol := effective fromSession sessPol stmtPol,
       ctxErr := if ctx == "d" || ctx == "pd" then "deadline" else "canceled",
